@@ -436,7 +436,8 @@ func (e *engine) saveReplay(prop string, entry replayEntry) string {
 // nativeReplay runs the harnesses natively (go test -overlay) on the given
 // replay entries; returns the output lines per entry.
 func (e *engine) nativeReplay(prop, pkg string, entries []replayEntry) ([]string, error) {
-	work := filepath.Join(verifRoot, ".work", prop, strings.ReplaceAll(pkg, "/", "_"))
+	work := filepath.Join(verifRoot, ".work", prop, fmt.Sprintf("%s-%d", strings.ReplaceAll(pkg, "/", "_"), os.Getpid()))
+	defer os.RemoveAll(work)
 	os.MkdirAll(work, 0o755)
 	// overlay: harness files + rt + generated test
 	ov := map[string]string{}
